@@ -4,6 +4,7 @@
 From RichModel Require Import Prelude Cells TermGrid Live SpecLive.
 From RichGen Require Import LiveCodes.
 From RichProofs Require Import TermGridP LiveP CursorP LiveP2 LiveP3 LiveP4.
+From RichProofs.bridge Require BridgeLive.   (* tie 1 (T2): LiveRender.position_cursor/restore_cursor regenerated statement by statement *)
 
 (* (1) erase_clears: position_cursor for a frame of h rows, interpreted with the cursor on the last
    of h non-blank rows (under `pre` further rows), blanks exactly those h rows and leaves the cursor
@@ -59,7 +60,7 @@ Proof. exact screen_invariant. Qed.
 Print Assumptions C10_screen_invariant.
 
 Example C10_screen_invariant_nonvacuous :
-  let c := mkCfg false false OEllipsis 12 3 None None true false false false false false in
+  let c := mkCfg false false OEllipsis 12 3 None None true false false false false false false false in
   ops_ok c (st0 c (w_lines 2))
     [Print (w_lines 1); Start; Refresh; Print (w_lines 4); Update (w_lines 7) true; Log (w_lines 1);
      Update [] false; Print (w_lines 1); Update (w_lines 1) true; Start; Stop; Print (w_lines 1)] = true.
@@ -98,10 +99,11 @@ Proof. repeat split. Qed.
 (* (3) cleanup_on_raise, flags: after `with display: body`, whatever raised wherever (any fault
    index for render and for get_renderable, raising user renderables, nested start/stop in the body),
    the hook stack, the stdout/stderr redirection and the started flag are as before the block --
-   for Live/Status as the code is, for Progress once start() guards its first refresh (T3 fact
-   progress_start_guarded, regenerated from rich/progress.py). *)
+   for Live/Status as the code is, for Progress when the handler around the first refresh of start()
+   runs for the injected exception: start_cleans c = progress_start_guarded && (start_cleanup_catches_base
+   || the exception is an Exception subclass) -- T3 facts regenerated from rich/progress.py. *)
 Theorem C10_cleanup_on_raise_flags : forall c f0 pre body,
-  c_progress c = false \/ c_start_guarded c = true ->
+  c_progress c = false \/ start_cleans c = true ->
   let s := fst (run_block c f0 pre body) in
   started s = false /\ hooks s = 0%nat /\ redir s = false.
 Proof. exact block_restores_flags. Qed.
@@ -112,7 +114,7 @@ Print Assumptions C10_cleanup_on_raise_flags.
    raising user renderables, frames of ANY height (fitting or not), restarts inside the body -- the hook
    stack and the redirection are as before AND the replayed characters leave the cursor visible. *)
 Theorem C10_cleanup_on_raise : forall c f0 pre body,
-  c_progress c = false \/ c_start_guarded c = true ->
+  c_progress c = false \/ start_cleans c = true ->
   lines_ok f0 = true -> forallb lines_ok pre = true -> forallb (op_text c) body = true ->
   let s := fst (run_block c f0 pre body) in
   cleanup_ok_b (Hn c) 0 (hooks s) (negb (redir s)) (out s) = true.
@@ -127,7 +129,7 @@ Proof. exact block_propagates. Qed.
 Print Assumptions C10_exception_propagates.
 
 Example C10_exception_propagates_nonvacuous :
-  let c := mkCfg false true OEllipsis 12 4 (Some 2%nat) None true false false false false false in
+  let c := mkCfg false true OEllipsis 12 4 (Some 2%nat) None true false false false false false false false in
   fired c (fst (run_block c (w_lines 2) [w_lines 1] [Refresh; Print (w_lines 1); Refresh; Print (w_lines 1)])) = true.
 Proof. vm_compute. reflexivity. Qed.
 
@@ -140,8 +142,25 @@ Proof. exact cursor_vis_any_history. Qed.
 Print Assumptions C10_cursor_hidden_iff_started.
 
 (* the code in /repo today satisfies the hypothesis (breaks if the guard is removed again) *)
-Example C10_start_guarded_today : progress_start_guarded = true.
-Proof. reflexivity. Qed.
+Example C10_start_guarded_today :
+  progress_start_guarded = true /\ start_cleanup_catches_base = true
+  /\ forall pr tr o W H fr fb base, start_cleans (cfg_today pr tr o W H fr fb base) = true.
+Proof. split; [reflexivity|]. split; [reflexivity|]. intros. destruct base; reflexivity. Qed.
+
+(* the same handler narrowed to `except Exception:` and a column raising KeyboardInterrupt / SystemExit
+   (not an Exception subclass): the statement is false again *)
+Theorem C10_cleanup_start_narrow_handler_refuted : exists c f0 pre body,
+  c_start_guarded c = true /\ c_catches_base c = false /\ c_fault_base c = true /\
+  let s := fst (run_block c f0 pre body) in
+  snd (run_block c f0 pre body) = true /\ hooks s = 1%nat /\ redir s = true
+  /\ vis (interp (Z.to_nat (c_H c)) init (out s)) = false.
+Proof. exists (d18_narrow_cfg false), (w_lines 1), [], []. repeat split; exact (proj1 d18_narrow_refuted) || apply d18_narrow_refuted. Qed.
+
+(* stdout/stderr are redirected exactly while started: every history, fault, restart *)
+Theorem C10_redirected_iff_started : forall c f0 ops,
+  let s := fst (run_ops c (st0 c f0) ops) in redir s = started s.
+Proof. exact redirected_iff_started. Qed.
+Print Assumptions C10_redirected_iff_started.
 
 (* D18 as found: without the guard the statement is false *)
 Theorem C10_cleanup_progress_start_asis_refuted : exists c f0 pre body,
